@@ -12,19 +12,41 @@ R3  code->spec: seeded random graphs up to 60 nodes are run through the real rou
     are logged and TLC judges every logged weight and path with the fixed-point definition
     (ShortestPathTrace.tla).  D* Lite: random worlds, the documented loop Step / change costs /
     UpdateWorld, Path() and Step() logged after every action and judged against the current world.
+
+Priority queues (aStarQueue, Dijkstra's priorityQueue, Yen's candidate heap) are unexported; they are
+bound through the routines: R3 "wide" records AStar(s, t, g, h).To(t) for EVERY ordered pair of
+dense / sparse / grid-with-diagonals / planted-potential graphs of 10..40 nodes with weights 1..20,
+for the null heuristic and heuristic tables the specification certifies (consistent, zero at the
+target) before use, in several containers and successor orders, plus the Dijkstra family and Yen.
+
+D* Lite with zero weights: family "gate" (zero-weight edges into / out of the goal, free two-way
+gates = zero-weight cycles through the goal, costs next to the goal raised and dropped, the edge in
+use raised or removed (+Inf), Step interleaved) in both directions; a call that does not return is
+a violation with the signature ...:hang.  ZERO_INTERIOR_STAGE adds zero-weight edges between other
+nodes (no zero-weight cycle off the goal): signatures path:DStarLite:zero-interior:* and
+path:dstar-trace-rejected:zero-interior.
 """
 import json
 import os
+import re
 import shutil
 
 SPEC = "path/ShortestPath.tla"
 CFG = "path/ShortestPath.cfg"
 TSPEC = "path/ShortestPathTrace.tla"
 TCFG = "path/ShortestPathTrace.cfg"
+YSPEC = "path/YenSearch.tla"
+YCFG = "path/YenSearch.cfg"
 DSPEC = "path/DStarLite.tla"
 DCFG = "path/DStarLite.cfg"
 
 IDS = "[[1,2,3,4,5,6],[-7,1000000007,0,42,3,9223372036854775807]]"
+
+# D* Lite on worlds with zero-weight edges between nodes other than the goal (every zero-weight cycle
+# still passes through the goal).  dynamic.DStarLite documents only "panics on a negative weight";
+# the stage is a separate one with its own signatures so that its findings can be told apart
+# (VERIF_C13_ZERO_INTERIOR=0 switches it off, e.g. to see the exit status of everything else).
+ZERO_INTERIOR_STAGE = os.environ.get("VERIF_C13_ZERO_INTERIOR", "1") != "0"
 
 
 def subst(minn, maxn, directed, wcodes, woff, mode="all", seed=1, nsamples=1, shard=0, nshards=1,
@@ -83,9 +105,9 @@ def run(ctx):
                    name="R2 replay " + name)
 
     # ---- R3: random graphs to 60 nodes through the real routines, judged by TLC ---------------
-    ngraphs = 120 if thorough else 24
+    ngraphs = 120 if thorough else 28
     groups = [
-        ("no-zero-cycles", "sparse-pos,dense-ties,disconnected,neg-dag,neg-cycle-far,undirected-pos"),
+        ("no-zero-cycles", "sparse-pos,dense-ties,disconnected,neg-dag,neg-cycle-far,undirected-pos,neg-potential"),
         ("zero-cycles", "zero-cycles,undirected-zero,neg-mixed"),
     ]
     for gname, fams in groups:
@@ -111,6 +133,50 @@ def run(ctx):
         else:
             ctx.violation("path:trace-rejected:%s" % gname, st2.get("detail", "")[:600],
                           {"trace": dst, "spec": TSPEC, "cfg": dict(KNOWNCUT="TRUE")})
+
+    # ---- R3 "wide": large open queues, many decrease-key operations ------------------------------
+    # every ordered pair (s, t) x heuristics (null, nil, spec-certified tables as function and as the
+    # graph's HeuristicCost) x containers / successor orders, 10..40 nodes, weights 1..20
+    tr = os.path.join(ctx.work, "ptrace-wide.ndjson")
+    summ = ctx.record(hb, "path-astar", tr, ["graphs=%d" % (80 if thorough else 24), "minn=10", "maxn=40", "views=3"],
+                      name="R3 record wide (A* all pairs, Dijkstra family, Yen; 10..40 nodes, weights 1..20)")
+    ok, st = ctx.validate(TSPEC, TCFG, tr, subst=dict(KNOWNCUT="FALSE"), name="R3 validate wide")
+    if ok:
+        ctx.traces += summ.get("traces", 0)
+        # Yen completeness on the same recorded graphs: TLC enumerates every simple path within the limit the
+        # answer commits to (YenSearch.tla); one that was not returned is a violation
+        yok, yst = ctx.validate(YSPEC, YCFG, tr, subst=dict(UNBOUNDED="FALSE", SKIP=""), workers=2,
+                                accept_re=r"YEN-SEARCH-INSTANCES (\d+)",
+                                name="R3 Yen omits no cheaper path: exhaustive enumeration of simple paths within the limit (wide)")
+        if yok:
+            yst["yen_answers_proved_complete"] = yst.get("events_consumed", 0)
+        else:
+            detail = yst.get("detail", "")
+            inst = re.findall(r"/\\ inst = (\d+)", detail)
+            pth = re.findall(r"/\\ path = <<([\d,\s]*)>>", detail)
+            keep = os.path.join(ctx.work, "..", "..", "replays", "C13")
+            os.makedirs(keep, exist_ok=True)
+            dst = os.path.abspath(os.path.join(keep, "ptrace-wide-yen-seed%d.ndjson" % ctx.seed))
+            shutil.copy(tr, dst)
+            what = "event %s of the trace: the simple path <<%s>> is within the limit of the answer but was not returned" % (
+                inst[-1] if inst else "?", pth[-1].replace("\n", " ") if pth else "?")
+            if inst:
+                try:
+                    yev = json.loads(open(tr).read().split("\n")[int(inst[-1]) - 1])
+                    what += " (YenKShortestPaths k=%s cost=%s s=%s t=%s returned %s)" % (
+                        yev["k"], "+Inf" if yev["c"] == 99 else yev["c"], yev["s"], yev["t"], yev["ps"])
+                except (ValueError, IndexError, KeyError):
+                    pass
+            ctx.violation("path:YenKShortestPaths:missing-cheaper-path", what + " | " + detail[-300:],
+                          {"trace": dst, "spec": YSPEC, "cfgfile": YCFG, "cfg": dict(UNBOUNDED="FALSE", SKIP=""),
+                           "accept_re": r"YEN-SEARCH-INSTANCES (\d+)"})
+    else:
+        keep = os.path.join(ctx.work, "..", "..", "replays", "C13")
+        os.makedirs(keep, exist_ok=True)
+        dst = os.path.abspath(os.path.join(keep, "ptrace-wide-seed%d.ndjson" % ctx.seed))
+        shutil.copy(tr, dst)
+        ctx.violation("path:trace-rejected:wide", st.get("detail", "")[:600],
+                      {"trace": dst, "spec": TSPEC, "cfg": dict(KNOWNCUT="FALSE")})
 
     # ---- D* Lite ----------------------------------------------------------------------------
     # spec->code, tables role: for pseudo-random worlds TLC prints the distance / optimal-edge tables of
@@ -142,6 +208,23 @@ def run(ctx):
         cases = ctx.gen(DSPEC, DCFG, subst=sb, name="R2 gen D* Lite tables: " + name)
         ctx.replay(hb, "path-dstar-tables", cases, ["heur=spec"], name="R2 replay D* Lite scripts: " + name)
 
+    # zero-weight edges at the goal (family "gate"): theorems of the family, then every (start, k steps,
+    # single / double change) towards the designated goal, with the spec's heuristic and with the null one
+    ginv = "TypeOK HeuristicOK GateClassOK OptReach"
+    if thorough:
+        ctx.tlc(DSPEC, DCFG, name="R1 DStarLite gate family: class, heuristic consistent, optimal edges reach the goal, for every "
+                "single/double change of 60 4-node worlds", workers=2,
+                subst=dsub("gate", 4, 1, 1, "base", "tables", ctx.seed, 60, emit=False, invs=ginv + " AllChangesReach"))
+    gplans = [("4-node worlds with free gates at the goal", dsub("gate", 4, 1, 1, "base", "tables", tseed, 300 if thorough else 60,
+                                                                 invs=ginv + " EmitTables")),
+              ("5-node worlds with free gates at the goal", dsub("gate", 5, 1, 1, "base", "tables", tseed, 80 if thorough else 20,
+                                                                 invs=ginv + " EmitTables"))]
+    for name, sb in gplans:
+        cases = ctx.gen(DSPEC, DCFG, subst=sb, name="R2 gen D* Lite tables: " + name)
+        for heur in ("spec", "null"):
+            ctx.replay(hb, "path-dstar-tables", cases, ["heur=" + heur, "limitms=3000"],
+                       name="R2 replay D* Lite scripts (%s heuristic): %s" % (heur, name))
+
     # spec->code, machine role: TLC explores every behaviour of the world/robot state machine with
     # deliberate updates (raise an edge on the optimal plan, lower one off the plan); the planner's run
     # must be a path of the printed state graph.
@@ -160,6 +243,11 @@ def run(ctx):
     # heuristic, and deliberate histories on grids with heuristics whose tables TLC validates
     drecs = [("random worlds, null heuristic", "path-dstar",
               ["worlds=%d" % (3000 if thorough else 200), "rounds=10", "maxn=10"], "dstar")]
+    drecs.append(("zero-weight gates at the goal, removals, null heuristic", "path-dstar",
+                  ["worlds=%d" % (6000 if thorough else 600), "rounds=10", "maxn=10", "zero=gate"], "zero-gate"))
+    if ZERO_INTERIOR_STAGE:
+        drecs.append(("zero-weight edges anywhere, no zero-weight cycle off the goal, null heuristic", "path-dstar",
+                      ["worlds=%d" % (600 if thorough else 100), "rounds=10", "maxn=10", "zero=interior"], "zero-interior"))
     for part in range(2 if thorough else 1):
         drecs.append(("deliberate grid histories, spec-validated heuristics (part %d)" % part, "path-dstar-grid",
                       ["hist=%d" % (6000 if thorough else 1000), "rounds=4", "part=%d" % part], "dstar-grid%d" % part))
@@ -174,7 +262,7 @@ def run(ctx):
             os.makedirs(keep, exist_ok=True)
             dst = os.path.abspath(os.path.join(keep, "%s-seed%d.ndjson" % (tag, ctx.seed)))
             shutil.copy(tr, dst)
-            ctx.violation("path:dstar-trace-rejected", st.get("detail", "")[:600],
+            ctx.violation("path:dstar-trace-rejected" + (":" + tag if tag.startswith("zero") else ""), st.get("detail", "")[:600],
                           {"trace": dst, "spec": TSPEC, "cfg": dict(KNOWNCUT="FALSE")})
 
     ctx.assumptions += [
@@ -189,14 +277,16 @@ def run(ctx):
              "D* Lite R2: one case = one script (start, goal, k steps, one single or double cost change, steps to "
              "the goal) on a spec-printed world, or one behaviour of the spec's state graph; non-trivial = at least one "
              "Step before the update. R3: one trace = one random graph with the logged answers of all routines, or one "
-             "D* Lite history (Step / UpdateWorld rounds).",
+             "D* Lite history (Step / UpdateWorld rounds); R3 wide: one trace = one graph of 10..40 nodes with the answers "
+             "of A* for every ordered pair under every heuristic and view (astar-calls in the stage), the Dijkstra family and Yen.",
         exhaustive=True)
 
 
 def replay(ctx, path):
     d = json.load(open(path))["data"]
     if "trace" in d:
-        ok, st = ctx.validate(d["spec"], TCFG, d["trace"], subst=d["cfg"])
+        ok, st = ctx.validate(d["spec"], d.get("cfgfile", TCFG), d["trace"], subst=d["cfg"],
+                              accept_re=d.get("accept_re", r"TRACE-ACCEPTED (\d+)"))
         print("trace accepted" if ok else "trace rejected: " + st.get("detail", "")[:800])
         if not ok:
             print("VIOLATION property=C13 replay=%s" % path)
